@@ -3,6 +3,7 @@ import RV.Drv.RolloutSM
 import RV.Drv.Executor
 import RV.Model.ClosedLoop
 import RV.Oracle.ClosedLoop
+import RV.Oracle.ClosedLoopLive
 namespace RV.Drv.ClosedLoop
 open Lean RV RV.Arith RV.Traffic RV.ClosedLoop RV.Drv.Arith RV.Drv.Traffic
 
@@ -147,9 +148,17 @@ def handle : Handler := fun op inp impl => do
       let healthy := match jopt inp "healthy" with | some (.bool b) => b | _ => false
       let term ← (match jopt inp "terminalAt" with | some v => jint v | none => pure (-1))
       let nsteps ← (match jopt inp "steps" with | some v => jnat v | none => pure 0)
+      -- C07: the explicit measure `mu` of the progress theorems, on the implementation's states at the round boundaries (after
+      -- every `tick`) of a healthy fair run, from the first release on: strictly smaller within 5 rounds
+      let relIdx := (labels.findIdx? (fun l => l.startsWith "release:")).getD labels.length
+      let bounds := ((labels.zip rest).zipIdx.filter (fun (x, i) => x.1 == "tick" && i > relIdx)).map (fun (x, _) => x.2)
+      let muOK := !(fair && healthy) || RV.Oracle.ClosedLoop.measureDecreases 5 bounds
+      let muBad := if fair && healthy then (match RV.Oracle.ClosedLoop.measureFirstBad 5 bounds 0 with | some (i, m) => [s!"mu-stall-at-round:{i}:mu={m}"] | none => []) else []
       let termOK := !(fair && healthy) || (decide (0 ≤ term) && decide (term ≤ 20 * ((nsteps : Int) + 4)))
-      return { holds := [("C02.loop_gate", ok), ("C06.loop_gate", ok), ("C07.loop_terminates", termOK), ("C06.loop_terminates", termOK)],
-               tags := ["trace", s!"trace-len:{(labels.length / 50) * 50}+", if njudged == 0 then "trivial" else "trace-judged"] ++ bad ++
+      return { holds := [("C02.loop_gate", ok), ("C06.loop_gate", ok), ("C07.loop_terminates", termOK), ("C06.loop_terminates", termOK),
+                         ("C07.loop_measure_decreases", muOK)],
+               tags := ["trace", s!"trace-len:{(labels.length / 50) * 50}+", if njudged == 0 then "trivial" else "trace-judged"] ++ bad ++ muBad ++
+                 (if fair && healthy then [s!"mu-boundaries:{(bounds.length / 10) * 10}+"] else []) ++
                  (if fair && healthy then ["fair-healthy-run", s!"rounds-per-step:{if nsteps == 0 then 0 else term.toNat / nsteps}"] else if fair then ["fair-run-with-events"] else ["random-schedule"]) }
   | _ => .error s!"closedloop: unknown op {op}"
 
